@@ -614,6 +614,16 @@ def gen_scenario(r, small=False):
                 continue
             evs.append({"kind": "prep", "name": f"k{i}", "s": float(cand[0]), "e": float(cand[1]),
                         "tid": r.choice([1, 1, 2])})
+        live = [x for x in evs if x["kind"] == "prep" and x["e"] > x["s"]]
+        if live and r.random() < 0.25:
+            # a Prep that starts a few device cycles (1..6 ns) before another one on the same stream ends: a partial
+            # overlap far below anything a viewer shows, still two slices in flight for that long
+            x = r.choice(live)
+            s2 = Fraction(x["e"]) - Fraction(r.choice([1, 2, 3, 4, 5, 6]), 1024)
+            cand = (s2, s2 + Fraction(r.randint(1, 4)))
+            ivs = [(y["s"], y["e"]) for y in evs if y["kind"] == "prep"] + [cand]
+            if max(count_at(ivs, q) for iv in ivs for q in iv) <= 4:
+                evs.append({"kind": "prep", "name": "knear", "s": float(cand[0]), "e": float(cand[1]), "tid": x["tid"]})
         for i in range(r.randint(0, 3)):
             s = Fraction(r.randint(0, tmax * grid), grid)
             d = Fraction(r.randint(1, 3 * grid), grid)
